@@ -11,7 +11,10 @@ from . import fakeeio, refcodec, vloop
 from .srv import EVENTS, Boom, PKT_NAMES
 from .tokens import val, tok, toks
 
-assert socketio.__file__.startswith('/repo/src/'), socketio.__file__
+import os as _os
+assert socketio.__file__.startswith(
+    _os.path.join(_os.environ.get('VERIF_REPO', '/repo'), 'src') + '/'), \
+    socketio.__file__
 
 AUTHS = {'none': None, 'val': {'tok': 'A1'}}
 
